@@ -6,6 +6,7 @@ from typing import Any, Dict, List
 from .. import compare as cmp
 from ..core import Outcome, Prop
 from . import slices
+from .c11 import SERIES_DROP
 
 
 def _eq(kind: str, a, b):
@@ -60,7 +61,7 @@ def compare(vec: Dict[str, Any], obs: Dict[str, Any]) -> Outcome:
 PROP = Prop(
     id="C03",
     title="Whatever validate returns conforms to the schema (parse postcondition)",
-    slices=[slices.SERIES_PARSE, slices.FRAME_PARSE],
+    slices=[slices.SERIES_PARSE, slices.FRAME_PARSE, SERIES_DROP],
     compare=compare,
     rule=("TLC explores the parse pipeline (default filling, coercion, index coercion; frames: add_missing_columns, "
           "strict='filter') and proves ParsePostcondition and ParseFixpoint on the specification; every run is replayed, "
